@@ -23,6 +23,17 @@ CLAIMS = {
             "Trusted: engine B, bytearray.reverse()/index-store semantics. Elements are integers in [0,255].",
             "abstract interpretation over an abstract buffer (generic element, affine domain) + def-use taint rule",
             "B", "DESIGN.md section 4, C08"),
+    "C05": ("proof",
+            "Per-operation refinement of the real EoReader class against the documented chunked-reading model: every "
+            "public operation is interpreted on a symbolic state (any data length/contents, any position, both modes, "
+            "cache set or unset, any non-negative arguments) satisfying an inductive invariant; results, bytes consumed, "
+            "post-state, 'fresh independent reader over the clipped window' for slice, and in-bounds proofs for every "
+            "buffer access are obligations on every path. Agreement per operation + inductive invariant = agreement on "
+            "every history, slices of slices included.",
+            "Trusted: engine B; sa/refs/reader_model.py; the first-0xFF search loop is recognised by a loop-form rule "
+            "and modelled as the uninterpreted function FF; memoryview/bytearray copy semantics.",
+            "abstract interpretation per operation vs reference transition system (refinement + inductive invariant)",
+            "A+B", "DESIGN.md section 4, C05"),
     "C09": ("proof",
             "Every public add_* method of the real EoWriter is interpreted on an abstract writer (arbitrary earlier "
             "contents, every two-step history of the sanitisation mode, symbolic integer / string length / length "
